@@ -2,6 +2,7 @@ package main
 
 import (
 	"fmt"
+	"regexp"
 	"go/types"
 	"math/big"
 	"strings"
@@ -162,8 +163,13 @@ var (
 	tyNames []string
 )
 
+var byteRe = regexp.MustCompile(`\bbyte\b`)
+var runeRe = regexp.MustCompile(`\brune\b`)
+
 func typeID(t types.Type) int {
 	k := types.TypeString(t, nil)
+	k = byteRe.ReplaceAllString(k, "uint8")
+	k = runeRe.ReplaceAllString(k, "int32")
 	if id, ok := tyIDs[k]; ok {
 		return id
 	}
